@@ -15,7 +15,9 @@ R08.3  cast table: each of the 10 casts wraps in the fragment its type / ext-dat
        wrapper's lift is the identity, and the cast's type function equals what Type::type_check computes for the
        wrapped fragment on every reachable child type (so from_components_unchecked attaches the true type)
 R08.4  insert_elem refuses malleable elements and elements that fail the context's local validity check
-R08.5  best_compilation returns only a B element whose type is signed and non-malleable"""
+R08.5  best_compilation returns only a B element whose type is signed and non-malleable
+R08.6  the policy cache key (Ord of concrete policies) distinguishes every payload (rule shared with C19)
+R08.7  the per-context limit checks behind check_local_validity pair figures and limits correctly (rule shared with C09)"""
 
 import itertools
 import os
@@ -536,6 +538,48 @@ def symx_short(n):
     return s if len(s) < 200 else s[:200] + "..."
 
 
+class RuleAlias(object):
+    """present a check context to a rule function of another property under this property's rule id"""
+
+    def __init__(self, chk, mapping, note):
+        self._chk, self._map, self._note = chk, mapping, note
+
+    def _r(self, rule):
+        return self._map.get(rule, rule)
+
+    def rule(self, rule, desc):
+        self._chk.rule(self._r(rule), "%s -- %s" % (self._note, desc))
+
+    def ok(self, rule, n=1):
+        self._chk.ok(self._r(rule), n)
+
+    def fail(self, rule, key, msg, where="", detail=None, kind="violation"):
+        self._chk.fail(self._r(rule), key, msg, where, detail, kind)
+
+    def obligation(self, rule, cond, key, msg, where="", detail=None):
+        return self._chk.obligation(self._r(rule), cond, key, msg, where, detail)
+
+    def floor(self, rule, what, count, floor):
+        self._chk.floor(self._r(rule), what, count, floor)
+
+    def guard(self, rule, key, fn, *a, **kw):
+        return self._chk.guard(self._r(rule), key, fn, *a, **kw)
+
+    def __getattr__(self, name):
+        return getattr(self._chk, name)
+
+
+def check_shared_mechanisms(chk, F):
+    """two mechanisms the compiler relies on are decided by other properties' rules; they are re-run here under C08's
+    ids because a defect in either changes what the compiler returns"""
+    from . import c19, limits
+    c19.check_policy_ord(RuleAlias(chk, {"R19.5": "R08.6"}, "the compiler's policy cache is keyed by Ord of the policy: "
+                                                            "distinct sub-policies must never compare Equal"), F)
+    limits.check_context_limits(RuleAlias(chk, {"R09.3": "R08.7"}, "insert_elem discards what check_local_validity "
+                                                                   "refuses: the per-context resource checks must "
+                                                                   "compare the right figure with the right limit"), F)
+
+
 def run(chk):
     F = chk.facts()
     chk.explanation = __doc__
@@ -549,3 +593,5 @@ def run(chk):
         chk.guard("R08.3", "casts", check_casts, chk, F)
     if not ONLY or "4" in ONLY:
         chk.guard("R08.4", "inner-gates", check_inner_gates, chk, F)
+    if not ONLY or "6" in ONLY:
+        chk.guard("R08.6", "shared", check_shared_mechanisms, chk, F)
